@@ -5,7 +5,7 @@ Import ListNotations.
 Open Scope string_scope.
 
 Definition detection_tree : dtree :=
-  (Ite (CSuffix ".lkml") (Leaf (Some "LookML")) (Ite (CSuffix ".malloy") (Leaf (Some "Malloy")) (Ite (CSuffix ".sql") (Ite (CHas "<_looks_like_yardstick_sql>") (Leaf (Some "Yardstick")) (Leaf (Some "Sidemantic"))) (Ite (CSuffix ".json") (Ite (CAnd (CHas """ldm""") (CHas """datasets""")) (Leaf (Some "GoodData")) (Ite (CHas """projectModel""") (Leaf (Some "GoodData")) (Ite (COr (COr (CHas """dateInstances""") (CHas """date_instances""")) (CHas """dateDimensions""")) (Leaf (Some "GoodData")) (Ite (CAnd (CHas """datasets""") (COr (CHas """dataSourceTableId""") (CHas """data_source_table_id"""))) (Leaf (Some "GoodData")) (Leaf None))))) (Ite (CSuffix ".aml") (Leaf (Some "Holistics")) (Ite (CSuffix ".tml") (Leaf (Some "ThoughtSpot")) (Ite (CSuffixIn [".yml"; ".yaml"]) (Ite (CHas "semantic_models:") (Leaf (Some "MetricFlow")) (Ite (CAnd (CHas "semantic_model:") (CHas "datasets:")) (Leaf (Some "OSI")) (Ite (CAnd (CHas ": _.") (COr (CHas "dimensions:") (CHas "measures:"))) (Leaf (Some "BSL")) (Ite (CAnd (COr (CHas "cubes:") (CHas "views:")) (CHas "measures:")) (Leaf (Some "Cube")) (Ite (CHas "models:") (Leaf (Some "Sidemantic")) (Ite (CAnd (CAnd (CHas "table_name:") (CHas "columns:")) (CHas "metrics:")) (Leaf (Some "Superset")) (Ite (CAnd (CHas "tables:") (CHas "base_table:")) (Leaf (Some "Snowflake")) (Ite (CAnd (CHas "metrics:") (CHas "type: ")) (Leaf (Some "MetricFlow")) (Ite (CAnd (COr (CHas "base_sql_table:") (CHas "base_sql_query:")) (CHas "measures:")) (Leaf (Some "Hex")) (Ite (CAnd (CAnd (CHas "table:") (CHas "db_table:")) (CHas "columns:")) (Leaf (Some "ThoughtSpot")) (Ite (CAnd (CHas "worksheet:") (CHas "worksheet_columns:")) (Leaf (Some "ThoughtSpot")) (Ite (CHas "type: metrics_view") (Leaf (Some "Rill")) (Ite (CAnd (CAnd (CHas "measures:") (CHas "dimensions:")) (COr (COr (CHas "table_name:") (CHas "table:")) (CHas "schema:"))) (Leaf (Some "Omni")) (Leaf None)))))))))))))) (Leaf None)))))))).
+  (Ite (CSuffix ".lkml") (Leaf (Some "LookML")) (Ite (CSuffix ".malloy") (Leaf (Some "Malloy")) (Ite (CSuffix ".sql") (Ite (CHas "<_looks_like_yardstick_sql>") (Leaf (Some "Yardstick")) (Leaf (Some "Sidemantic"))) (Ite (CSuffix ".json") (Ite (CAnd (CHas """ldm""") (CHas """datasets""")) (Leaf (Some "GoodData")) (Ite (CHas """projectModel""") (Leaf (Some "GoodData")) (Ite (COr (COr (CHas """dateInstances""") (CHas """date_instances""")) (CHas """dateDimensions""")) (Leaf (Some "GoodData")) (Ite (CAnd (CHas """datasets""") (COr (CHas """dataSourceTableId""") (CHas """data_source_table_id"""))) (Leaf (Some "GoodData")) (Leaf None))))) (Ite (CSuffix ".aml") (Leaf (Some "Holistics")) (Ite (CSuffix ".tml") (Leaf (Some "ThoughtSpot")) (Ite (CSuffixIn [".yml"; ".yaml"]) (Ite (CHas "semantic_models:") (Leaf (Some "MetricFlow")) (Ite (CAnd (CHas "semantic_model:") (CHas "datasets:")) (Leaf (Some "OSI")) (Ite (CAnd (CHas ": _.") (COr (CHas "dimensions:") (CHas "measures:"))) (Leaf (Some "BSL")) (Ite (COr (CHas "cubes:") (CAnd (CHas "views:") (CHas "measures:"))) (Leaf (Some "Cube")) (Ite (CHas "models:") (Leaf (Some "Sidemantic")) (Ite (CAnd (CAnd (CHas "table_name:") (CHas "columns:")) (CHas "metrics:")) (Leaf (Some "Superset")) (Ite (CAnd (CHas "tables:") (CHas "base_table:")) (Leaf (Some "Snowflake")) (Ite (CAnd (CHas "metrics:") (CHas "type: ")) (Leaf (Some "MetricFlow")) (Ite (CAnd (COr (CHas "base_sql_table:") (CHas "base_sql_query:")) (CHas "measures:")) (Leaf (Some "Hex")) (Ite (CAnd (CAnd (CHas "table:") (CHas "db_table:")) (CHas "columns:")) (Leaf (Some "ThoughtSpot")) (Ite (CAnd (CHas "worksheet:") (CHas "worksheet_columns:")) (Leaf (Some "ThoughtSpot")) (Ite (CHas "type: metrics_view") (Leaf (Some "Rill")) (Ite (CAnd (CAnd (CHas "measures:") (CHas "dimensions:")) (COr (COr (CHas "table_name:") (CHas "table:")) (CHas "schema:"))) (Leaf (Some "Omni")) (Leaf None)))))))))))))) (Leaf None)))))))).
 
 (* MEASURED by the harness on this run: per kind of file an exporter writes (and its own adapter reads valid models from) -- label, suffix,
    the marker sets observed, the adapter that must handle it *)
